@@ -29,7 +29,7 @@ from vfw.core import (
 
 MAX_SAMPLES = 4
 SCRATCH_TREE = os.path.realpath(REPO_DIR) != '/repo'
-CORES = 16
+CORES = int(os.environ.get('VERIF_CORES') or 16)
 
 
 def load_findings():
